@@ -38,9 +38,11 @@ def space_adts(ctx):
                    if imp.get('trait') == STATE_SPACE and imp.get('self_adt')})
 
 
-def cmp_facts(fn, target_block):
+def cmp_facts(fn, target_block, _depth=0):
     """ordering facts known on every path to target_block:
-    list of (A terms, B terms, relation set) from comparison switches whose one edge dominates target."""
+    list of (A terms, B terms, relation set) from comparison switches whose one edge dominates target.
+    A switch on a flag `let f = a && b` (reaching definitions: the literal false and the comparison b) gives, on its true
+    edge, b and whatever was known where b was evaluated (dually for `a || b` on the false edge)."""
     facts = []
     reach = fn.reachable(0)
     for b in range(fn.nb):
@@ -50,6 +52,14 @@ def cmp_facts(fn, target_block):
         if si is None:
             continue
         terms, tmap, other = si
+        only = None
+        if len(terms) > 1:
+            lits = [t for t in terms if t[0] == 'const' and t[1] in ('true', 'false')]
+            rest = [t for t in terms if t not in lits]
+            if len(rest) != 1 or len({t[1] for t in lits}) != 1:
+                continue
+            only = lits[0][1] == 'false'          # the edge on which the flag cannot be the literal
+            terms = frozenset(rest)
         if len(terms) != 1:
             continue
         n = next(iter(terms))
@@ -65,14 +75,43 @@ def cmp_facts(fn, target_block):
             t_t, f_t = tmap['1'], other
         else:
             continue
-        if neg:
-            t_t, f_t = f_t, t_t
         if t_t == f_t:
             continue
         for val, edge_t in ((True, t_t), (False, f_t)):
+            if only is not None and val != only:
+                continue
             if target_block not in fn.reachable(0, removed=frozenset([(b, edge_t)])):
-                facts.append((n[2], n[3], set(REL[(n[1], val)]), b))
+                facts.append((n[2], n[3], set(REL[(n[1], val != neg)]), b))
+                if only is not None and _depth < 3:
+                    d = _flag_def_block(fn, b)
+                    if d is not None:
+                        facts += [(x, y, r, b) for (x, y, r, _b) in cmp_facts(fn, d, _depth + 1)]
     return facts
+
+
+def _flag_def_block(fn, b):
+    """the block holding the only non-literal definition of the flag local switched on in block b"""
+    t = fn.blocks[b]['term']
+    pl = t['discr'].get('move') or t['discr'].get('copy')
+    if pl is None or pl['p']:
+        return None
+    seen, l = set(), pl['l']
+    for _ in range(4):                       # follow plain copies of the flag
+        defs = [(bi, st) for bi, blk in enumerate(fn.blocks) if not blk['cleanup'] for st in blk['stmts']
+                if st['k'] == 'assign' and st['place'] == {'l': l, 'p': []}]
+        nonlit = [(bi, st) for bi, st in defs if not (st['rv']['k'] == 'use' and 'const' in st['rv']['op'])]
+        if len(nonlit) != 1:
+            return None
+        bi, st = nonlit[0]
+        if st['rv']['k'] == 'use':
+            src = st['rv']['op'].get('move') or st['rv']['op'].get('copy')
+            if src is None or src['p'] or src['l'] in seen:
+                return None
+            seen.add(l)
+            l = src['l']
+            continue
+        return bi if st['rv']['k'] == 'binop' else None
+    return None
 
 
 def loop_elem_facts(fn, target_block):
